@@ -233,5 +233,8 @@ pub fn run(ctx: &Ctx) -> &'static str {
         || strategy(mt),
         |_| check,
     );
+    // the verdicts as the real housekeeping arm computes, stamps and publishes them (order of classification and
+    // teardown within a tick, classifier state across reloads)
+    crate::props::e2e::run(ctx, crate::props::e2e::Phase::WeakStats, ctx.tier.pick(1, 2));
     "exploration"
 }
